@@ -26,7 +26,9 @@ def _big_stack():
 RULE = ("generated enums (full coverage implicit/explicit/permuted, partial coverage with try, default, catch-all, both, "
         "gaps; uint and int base; widths 1..10 quick / 1..16 thorough) each with reuse by name (Direct conversion `En`) on "
         "narrower / equal fields (unsafe getter), wider fields (plain into, only when a From exists) and try fields, in "
-        "another register; compiled once per batch (debug); main evaluates From/TryFrom + Into on EVERY raw value, "
+        "another register; plus the cfg-reuse family (two generated enums of one name under mutually exclusive cfgs, a third field "
+        "reusing the name: 9 shapes, each built with the feature on and off, method / compiles / getter table vs Enum.c07_env_result); "
+        "compiled once per batch (debug); main evaluates From/TryFrom + Into on EVERY raw value, "
         "Default, the unit-variant round trip and every getter on EVERY bit pattern; diffed against the Coq model "
         "evaluated on the same MIR (run-length encoded tables). distinct = distinct (width, base, try, variant list)")
 
@@ -484,89 +486,176 @@ def wide_reuse_probe(ctx, exe):
     return info, bad
 
 
-CFG_WITNESS = '''config { type RegisterAddressType = u8; }
-#[cfg(feature = "a")]
-register Ra {
-    const ADDRESS = 0;
-    const SIZE_BITS = 8;
-    xx: uint as enum En { Aa, Bb, Cc, Dd } = 0..2
-},
-#[cfg(not(feature = "a"))]
-register Rb {
-    const ADDRESS = 1;
-    const SIZE_BITS = 8;
-    yy: uint as try enum En { Aa } = 0..2
-},
-register Rc {
-    const ADDRESS = 2;
-    const SIZE_BITS = 8;
-    zz: uint as En = 0..2
-}
-'''
+def cfg_def(enum_a, enum_b, zz="zz: uint as En = 0..2", size_c=8):
+    """two generated enums named En under mutually exclusive cfgs (Ra.xx with feature "a", Rb.yy without) and a third,
+    ungated register Rc whose field zz reuses the name"""
+    return ('config { type RegisterAddressType = u8; }\n'
+            '#[cfg(feature = "a")]\nregister Ra {\n    const ADDRESS = 0;\n    const SIZE_BITS = 8;\n    xx: ' + enum_a + '\n},\n'
+            '#[cfg(not(feature = "a"))]\nregister Rb {\n    const ADDRESS = 1;\n    const SIZE_BITS = 8;\n    yy: ' + enum_b + '\n},\n'
+            'register Rc {\n    const ADDRESS = 2;\n    const SIZE_BITS = %d;\n    %s\n}\n' % (size_c, zz))
+
+
+FULL4 = "uint as enum En { Aa, Bb, Cc, Dd } = 0..2"
+CFG_WITNESS = cfg_def(FULL4, "uint as try enum En { Aa } = 0..2")        # the D18 witness
+CFG_FAMILY = [   # (tag, text, width of zz)
+    ("d18_witness", CFG_WITNESS, 2),
+    ("fallible_first", cfg_def("uint as try enum En { Aa } = 0..2", FULL4), 2),
+    ("both_infallible", cfg_def(FULL4, "uint as enum En { Aa, Rest = catch_all } = 0..2"), 2),
+    ("second_narrower", cfg_def(FULL4, "uint as enum En { Aa, Rest = catch_all } = 0..1"), 2),
+    ("default_then_fallible", cfg_def("uint as enum En { Aa, Dflt = default } = 0..2", "uint as try enum En { Aa } = 0..2"), 2),
+    ("fallible_then_default", cfg_def("uint as try enum En { Aa, Bb } = 0..2", "uint as enum En { Aa, Dflt = default } = 0..2"), 2),
+    ("reuse_with_try", cfg_def(FULL4, "uint as try enum En { Aa } = 0..2", zz="zz: uint as try En = 0..2"), 2),
+    ("reuse_wider", cfg_def("uint as enum En { Aa, Rest = catch_all } = 0..2", "uint as enum En { Aa, Bb, Dflt = default } = 0..2",
+                            zz="zz: uint as En = 0..3"), 3),
+    ("three_bit_both", cfg_def("uint as enum En { Aa, Rest = catch_all } = 0..3", "uint as enum En { Bb = 5, Dflt = default } = 0..4",
+                               zz="zz: uint as En = 0..3"), 3),
+]
 
 
 def d18_open():
     return [f for f in vlib.load_known_findings("C07") if f.get("id") == "D18"]
 
 
-def cfg_reuse_probe(ctx, exe):
-    """Defect D18 (found by this check): two generated enums of the same name under mutually exclusive cfgs; a third
-    field reuses the name.  The method choice looks the name up ignoring cfg, takes the first (Infallible) enum and
-    emits the unchecked getter; built WITHOUT feature "a" the only `En` is the fallible one -> unchecked unwrap of an
-    Err.  Model: Enum.getter_env (C07_cfg_reuse_refuted).  Data-driven on KNOWN_FINDINGS.jsonl (id D18, property C07)."""
-    is_open = bool(d18_open())
-    res = gen_common.run_gen(ctx, exe, [{"id": "p", "syntax": "dsl", "text": CFG_WITNESS, "name": "Dev", "want": ["pretty", "facts", "mir"]}], tag="cprobe")
-    r = res["p"]
-    fi = {"syntax": "dsl", "text": CFG_WITNESS, "build": "feature \"a\" disabled"}
-    if r.get("status") != "ok":
-        info = {"generator": gen_common.canon_status(r)}
-        if is_open:
-            return info, {"what": "D18 is listed open but the generator now rejects the witness (repaired?): set D18 to \"fixed\" in KNOWN_FINDINGS.jsonl",
-                          "failing_input": fi, "implementation": info["generator"]}, False
-        return info, None, False
-    on = [c.replace('\\"', '"') for c in re.findall(r'value: Some\(\s*"((?:[^"\\]|\\.)*)"', r["mir"]) if c.startswith("not")]
-    on_term = "[" + "; ".join(vlib.coq_string(c) for c in sorted(set(on))) + "]"
-    model = gen_common.eval_model(ctx, ["Enum"], f"c07_env_result {on_term}", [("p", gen_common.mir_term(r))], tag="cprobe_model")["p"]
-    mline = ([ln for ln in model.split("\n") if ln.startswith("Rc.zz ")] or [model])[0]
-    conv = [g["conv"] for fsx in r["facts"]["field_sets"] if fsx["name"] == "Rc" for g in fsx["getters"]][0]
-    blocks = []
-    for p in range(4):
-        show = "show_res(&fs.zz())" if conv == "try_into" else 'format!("{:?}", fs.zz())'
-        blocks.append(f'''    if {p} >= start && {p} < stop {{ println!("BEGIN {p}"); let fs = m0::field_sets::Rc::from([{p}u8]); println!("{p} {{}}", {show}); println!("END {p}"); }}''')
-    l2.write_crate(ctx, "c07cprobe", {"m0": r["pretty"]}, make_main(blocks), features=["a"])
-    ok, out = l2.build(ctx, "c07cprobe")
-    info = {"generator": "ok", "getter_conv": conv, "rustc_accepts": ok, "model": mline, "d18_status": "open" if is_open else "not open"}
-    if not ok:
-        l2.cleanup(ctx, "c07cprobe")
-        if is_open:
-            return info, {"what": "D18 is listed open but the witness no longer compiles (behaviour differs from the recorded one)", "failing_input": fi, "rustc": out[-800:]}, False
-        return info, None, False
-    by_site, crashes = run_driver(ctx, "c07cprobe", 4)
-    crashed = {s for s, _, _ in crashes}
-    pairs = []
-    for p in range(4):
-        if p in crashed or not by_site.get(p):
-            pairs.append((p, "UB"))
-        else:
-            pairs.append((p, tok(p, by_site[p][0].split(" ", 1)[1])))
-    table = rle(pairs)
-    info["getter_table"] = table
-    l2.cleanup(ctx, "c07cprobe")
-    impl_line = f"Rc.zz {conv}:En | {table}"
-    ub = bool(crashed)
-    if is_open:
-        if impl_line != mline:
-            return info, {"what": "cfg-reuse witness: compiled behaviour differs from the model of the unrepaired code (Enum.getter_env)" +
-                                  ("" if ub else " — no undefined behaviour any more: set D18 to \"fixed\" in KNOWN_FINDINGS.jsonl"),
-                          "failing_input": fi, "implementation": impl_line, "model": mline}, False
-        return info, None, ub
-    if ub:
-        first = min(crashed)
-        return info, {"what": "getter without Result reaches the unchecked unwrap of an Err (abort in the debug build = undefined behaviour): "
-                              "an enum generated on one field is reused by name on another while a same-named enum exists under another cfg",
-                      "failing_input": fi, "raw_value": first, "implementation": impl_line,
-                      "stderr": [c[2] for c in crashes][0][-500:]}, False
-    return info, None, False
+def cfg_reuse_family(ctx, exe):
+    """D18 (found by this check, repaired by /repo 6916a8d): generated enums may share a name under different cfgs; a
+    third field reuses the name.  The method choice is cfg-blind; since the repair it looks at ALL enums of the name
+    and takes the unchecked conversion only if every one is Infallible for the field's width (Enum.conv_choice).
+    Every member of the family is built TWICE (feature "a" on / off) and compared with Enum.c07_env_result of that
+    build: conversion method of zz; whether the crate compiles (model: no `nocompile` token in any getter line of
+    the build — Into on an enum without From is the model's NoFromImpl); and, when it compiles, the table of zz() over
+    every bit pattern.  An abort at unwrap_unchecked (debug build: the unsafe-precondition check) is UB = VIOLATION.
+    Returns (info, [violations])."""
+    cases = [{"id": f"f{i}", "syntax": "dsl", "text": text, "name": "Dev", "want": ["pretty", "facts", "mir"]}
+             for i, (tag, text, w) in enumerate(CFG_FAMILY)]
+    res = gen_common.run_gen(ctx, exe, cases, tag="cfam")
+    info, viol = {"members": {}}, []
+    usable = []
+    for c, (tag, text, w) in zip(cases, CFG_FAMILY):
+        r = res[c["id"]]
+        fi = {"syntax": "dsl", "text": text, "family_member": tag}
+        if r.get("status") != "ok" or not r.get("facts") or not r.get("pretty"):
+            info["members"][tag] = {"generator": gen_common.canon_status(r)}
+            viol.append({"what": "cfg-reuse family: a definition the property accepts was not accepted by the generator",
+                         "failing_input": fi, "implementation": gen_common.canon_status(r), "message": r.get("message")})
+            continue
+        for fsn, gn, en, raw in unchecked_getter_oracle(r["facts"]):
+            viol.append({"what": f"getter {fsn}::{gn} converts with unwrap_unchecked but a generated enum named {en} (present in some build) has no "
+                                 f"conversion for raw value {raw}: undefined behaviour in that build",
+                         "failing_input": dict(fi, raw_value=raw)})
+        usable.append((c, tag, text, w, r))
+    if d18_open() and usable:
+        conv0 = [g["conv"] for fsx in usable[0][4]["facts"]["field_sets"] if fsx["name"] == "Rc" for g in fsx["getters"]][0]
+        if conv0 != "unsafe_into":
+            viol.append({"what": "D18 is listed open in KNOWN_FINDINGS.jsonl but the generator no longer chooses the unchecked conversion for the "
+                                 "witness (repaired by 6916a8d): set D18 to \"fixed\"", "failing_input": {"syntax": "dsl", "text": CFG_WITNESS}})
+    for build, feats in (("without_a", []), ("with_a", ["a"])):
+        terms, on_terms = [], {}
+        for c, tag, text, w, r in usable:
+            cfgs = sorted({x.replace('\\"', '"') for x in re.findall(r'value: Some\(\s*"((?:[^"\\]|\\.)*)"', r["mir"])})
+            on = [x for x in cfgs if x.startswith("not") == (build == "without_a")]
+            on_terms[c["id"]] = "[" + "; ".join(vlib.coq_string(x) for x in on) + "]"
+        # the set of predicates that hold is the same for every member (same two cfg strings): one model call per build
+        groups = collections.defaultdict(list)
+        for c, tag, text, w, r in usable:
+            groups[on_terms[c["id"]]].append((c["id"], gen_common.mir_term(r)))
+        model = {}
+        for on_term, lst in groups.items():
+            model.update(gen_common.eval_model(ctx, ["Enum"], f"c07_env_result {on_term}", lst, tag=f"cfam_{build}_model"))
+        plan = []
+        for c, tag, text, w, r in usable:
+            m = model.get(c["id"]) or ""
+            lines = m.split("\n")
+            mline = ([ln for ln in lines if ln.startswith("Rc.zz ")] or [m])[0]
+            conv = [g["conv"] for fsx in r["facts"]["field_sets"] if fsx["name"] == "Rc" for g in fsx["getters"]][0]
+            expect_compile = not any("nocompile" in ln.split(" | ")[-1] for ln in lines)
+            plan.append({"c": c, "tag": tag, "text": text, "w": w, "r": r, "mline": mline, "conv": conv, "expect": expect_compile})
+            info["members"].setdefault(tag, {})[build] = {"model": mline, "getter_conv": conv, "model_compiles": expect_compile}
+            if mline.split(" ")[1:2] != [f"{conv}:En"]:
+                viol.append({"what": "cfg-reuse family: conversion method of the reusing getter differs from the model (Enum.conv_choice: unchecked only "
+                                     "if EVERY generated enum of that name is Infallible for the field's width)",
+                             "failing_input": {"syntax": "dsl", "text": text, "family_member": tag, "build": build},
+                             "implementation": f"Rc.zz {conv}:En", "model": mline})
+
+        def crate(members, name, check_only):
+            blocks, mods = [], {}
+            for k, pl in enumerate(members):
+                show = "show_res(&fs.zz())" if pl["conv"] == "try_into" else 'format!("{:?}", fs.zz())'
+                for pt in range(1 << pl["w"]):
+                    site = k * 8 + pt
+                    blocks.append(f'    if {site} >= start && {site} < stop {{ println!("BEGIN {site}"); let fs = m{k}::field_sets::Rc::from([{pt}u8]); '
+                                  f'println!("{pt} {{}}", {show}); println!("END {site}"); }}')
+                mods[f"m{k}"] = pl["r"]["pretty"]
+            l2.write_crate(ctx, name, mods, make_main(blocks), features=["a"])
+            return l2.build(ctx, name, check_only=check_only, cargo_features=feats or None)
+
+        def run_members(members, name):
+            """-> {tag: (table, crashed patterns, stderr)}"""
+            by_site, crashes = run_driver(ctx, name, 8 * len(members))
+            crashed = {s_: e_ for s_, _, e_ in crashes if s_ is not None}
+            out = {}
+            for k, pl in enumerate(members):
+                pairs, bad = [], []
+                for pt in range(1 << pl["w"]):
+                    site = k * 8 + pt
+                    if site in crashed or not by_site.get(site):
+                        pairs.append((pt, "UB"))
+                        bad.append(pt)
+                    else:
+                        pairs.append((pt, tok(pt, by_site[site][0].split(" ", 1)[1])))
+                out[pl["tag"]] = (rle(pairs), bad, (crashed.get(k * 8 + bad[0]) or "")[-500:] if bad else "")
+            return out
+
+        def judge_run(pl, table, bad, err):
+            fi = {"syntax": "dsl", "text": pl["text"], "family_member": pl["tag"], "build": build}
+            impl_line = f"Rc.zz {pl['conv']}:En | {table}"
+            info["members"][pl["tag"]][build]["getter_table"] = table
+            if bad:
+                viol.append({"what": "getter without Result reaches the unchecked unwrap of an Err (abort in the debug build = undefined behaviour): an "
+                                     "enum generated on one field is reused by name on another while a same-named enum exists under another cfg "
+                                     "(defect D18 is back)",
+                             "failing_input": dict(fi, raw_value=bad[0]), "implementation": impl_line, "model": pl["mline"], "stderr": err})
+            elif impl_line != pl["mline"]:
+                viol.append({"what": "cfg-reuse family: compiled getter table differs from the model of that build (Enum.getter_env)" +
+                                     ("" if pl["expect"] else " — the model says this build does not compile (Into on an enum without From)"),
+                             "failing_input": fi, "implementation": impl_line, "model": pl["mline"]})
+
+        good = [pl for pl in plan if pl["expect"]]
+        if good:
+            ok, out = crate(good, "c07cfam", False)
+            if ok:
+                for pl in good:
+                    info["members"][pl["tag"]][build]["rustc_accepts"] = True
+                for tag, (table, bad, err) in run_members(good, "c07cfam").items():
+                    judge_run([pl for pl in good if pl["tag"] == tag][0], table, bad, err)
+            else:
+                failing = sorted({int(x) for x in re.findall(r"--> src/m(\d+)\.rs", out)})
+                for k in failing or range(len(good)):
+                    pl = good[k]
+                    info["members"][pl["tag"]][build]["rustc_accepts"] = False
+                    mm = re.search(r"(error[^\n]*\n\s*--> src/m%d\.rs[^\n]*\n(?:[^\n]*\n){0,10})" % k, out)
+                    viol.append({"what": "cfg-reuse family: the emitted code does not compile in this build although the model's getters all compile",
+                                 "failing_input": {"syntax": "dsl", "text": pl["text"], "family_member": pl["tag"], "build": build},
+                                 "rustc": mm.group(1) if mm else out[-1200:], "model": pl["mline"]})
+            l2.cleanup(ctx, "c07cfam")
+        for pl in [pl for pl in plan if not pl["expect"]]:
+            ok, out = crate([pl], "c07cfam1", True)
+            info["members"][pl["tag"]][build]["rustc_accepts"] = ok
+            if not ok:
+                if "E0277" not in out or "From<" not in out:
+                    viol.append({"what": "cfg-reuse family: the build does not compile, as the model says, but not for the missing From impl",
+                                 "failing_input": {"syntax": "dsl", "text": pl["text"], "family_member": pl["tag"], "build": build}, "rustc": out[-1200:]})
+            else:
+                # the model says `Into` on an enum without From (does not compile); it compiles: build it and look at what the getter does
+                ok2, out2 = crate([pl], "c07cfam1", False)
+                if ok2:
+                    table, bad, err = run_members([pl], "c07cfam1")[pl["tag"]]
+                    judge_run(pl, table, bad, err)
+                else:
+                    viol.append({"what": "cfg-reuse family: cargo check passes but cargo build fails", "rustc": out2[-800:],
+                                 "failing_input": {"syntax": "dsl", "text": pl["text"], "family_member": pl["tag"], "build": build}})
+            l2.cleanup(ctx, "c07cfam1")
+    info["d18_status"] = "open" if d18_open() else "not open (fixed: an unchecked getter that can reach an Err in some build is a violation)"
+    return info, viol
 
 
 # ---------------------------------------------------------------- the check
@@ -702,31 +791,37 @@ def unchecked_getter_oracle(facts):
     unsafe_into) must target a generated enum whose conversion is defined for EVERY bit pattern the field can hold:
     an `impl From` (wildcard arm to a catch-all/default), or arms for all raw values 0..2^w-1.
     Returns a list of (field set, getter, enum, first uncovered raw value)."""
-    enums = {e["name"]: e for e in facts.get("enums", [])}
+    enums = collections.defaultdict(list)      # generated enums may share a name under different cfgs: ALL of them count
+    for e in facts.get("enums", []):
+        enums[e["name"]].append(e)
     bad = []
     for fs in facts.get("field_sets", []):
         for g in fs["getters"]:
             if g["conv"] != "unsafe_into":
                 continue
             en = g["ret"].split("::")[-1]
-            e = enums.get(en)
-            if e is None:
+            if not enums.get(en):
                 bad.append((fs["name"], g["name"], en, "no generated enum of that name"))
                 continue
-            wild = [a for a in e["from_arms"] if a["pattern"] == "wild"]
-            if wild and not str(wild[0].get("target", "")).startswith("err"):
-                continue
             w = g["end"] - g["start"]
-            listed = {int(a["pattern"]) for a in e["from_arms"] if a["pattern"] != "wild" and not a.get("cfg")}
-            if w > 16:
-                bad.append((fs["name"], g["name"], en, f"fallible conversion on a {w}-bit field"))
-                continue
             signed = g["carrier"].startswith("i")
             cb = int(g["carrier"][1:])
-            for raw in range(1 << w):
-                v = raw - (1 << cb) if (signed and w == cb and raw >= (1 << (cb - 1))) else raw
-                if v not in listed:
-                    bad.append((fs["name"], g["name"], en, raw))
+            for e in enums[en]:
+                wild = [a for a in e["from_arms"] if a["pattern"] == "wild"]
+                if wild and not str(wild[0].get("target", "")).startswith("err"):
+                    continue
+                listed = {int(a["pattern"]) for a in e["from_arms"] if a["pattern"] != "wild" and not a.get("cfg")}
+                if w > 16:
+                    bad.append((fs["name"], g["name"], en, f"fallible conversion on a {w}-bit field"))
+                    break
+                miss = None
+                for raw in range(1 << w):
+                    v = raw - (1 << cb) if (signed and w == cb and raw >= (1 << (cb - 1))) else raw
+                    if v not in listed:
+                        miss = raw
+                        break
+                if miss is not None:
+                    bad.append((fs["name"], g["name"], en, miss))
                     break
     return bad
 
@@ -807,12 +902,8 @@ def run(ctx):
     wprobe, bad = wide_reuse_probe(ctx, exe)
     if bad:
         violations.append(bad)
-    cprobe, bad, d18_seen = cfg_reuse_probe(ctx, exe)
-    if bad:
-        violations.append(bad)
-    if d18_seen:
-        vlib.known_finding(ctx, d18_open()[0], "getter `zz()` (no Result) aborts at unwrap_unchecked for bit patterns 1..3 when built without feature \"a\": "
-                           "a generated enum reused by name while a same-named enum exists under the opposite cfg; table " + cprobe["getter_table"])
+    cprobe, cviol = cfg_reuse_family(ctx, exe)
+    violations += cviol
     miri = {"ran": False, "why": "quick tier"}
     if not quick:
         miri, mv = miri_subset(ctx, exe, random.Random(ctx.seed + 9))
@@ -831,13 +922,13 @@ def run(ctx):
         if not okc:
             vlib.violation(ctx, {"broken": "coqchk rejected the compiled proofs", "detail": outc[-800:]}, no_input=True)
     ctx.log(f"definitions {len(defs)}, table lines compared {nlines}, raw values / bit patterns evaluated {stats['values']}, "
-            f"int-full-width probe {probe}, wide-reuse probe {wprobe}, cfg-reuse probe {cprobe}, miri {miri}")
+            f"int-full-width probe {probe}, wide-reuse probe {wprobe}, cfg-reuse family {json.dumps(cprobe)[:1500]}, miri {miri}")
     sample = defs[len(defs) // 2]
     vlib.write_evidence(ctx, info, {
         "evaluations": int(stats["values"]), "distinct_nontrivial": len(distinct), "rule": RULE,
         "exhaustive": True, "exhaustive_what": "per definition: every raw value of the enum's field for From/TryFrom/Into and every bit pattern of every field with a conversion for the getter",
         "definitions": len(defs), "table_lines_compared": nlines, "input_distribution": {k: v for k, v in stats.items() if k != "values"},
-        "int_full_width_probe": probe, "wide_reuse_probe": wprobe, "cfg_reuse_probe": cprobe, "miri": miri, **({"coqchk": chk} if chk else {}), "disagreements": len(violations),
+        "int_full_width_probe": probe, "wide_reuse_probe": wprobe, "cfg_reuse_family": cprobe, "miri": miri, **({"coqchk": chk} if chk else {}), "disagreements": len(violations),
         "samples": [{"text": adef.render(sample[0], "dsl"), "meta": {k: (v if k != "vals" else v[:20]) for k, v in sample[1].items()}}]})
 
 
